@@ -6,6 +6,8 @@ import hashlib
 import hmac
 import struct
 
+import wire
+
 from cryptography.hazmat.primitives.ciphers.aead import AESGCM
 
 
@@ -143,6 +145,6 @@ def connection(rng, version=None, n_app=None):
     n_app = n_app if n_app is not None else rng.randrange(2, 6)
     app = [(rng.randrange(2), rng.randbytes(rng.randrange(1, 120))) for _ in range(n_app)]
     app[0] = (0, b"GET /c12 HTTP/1.1\r\n\r\n")
-    c = Conn(rng, cport=rng.randrange(20000, 60000))
+    c = Conn(rng, cport=wire.client_port(rng, 20000, 60000))
     kl = tls12(c, app) if version == "1.2" else tls13(c, app)
     return c.frames, kl, [p for _, p in app], version
